@@ -425,6 +425,40 @@ func runC11(c *Ctx) {
 						repl interface{}
 					}{"replace", append(append([]interface{}{}, arr...), arr...)})
 				}
+				// ... and the same entry again IN ANOTHER FORM: a text entry also as an object naming it as its key (before and
+				// after it), an object entry's key also as plain text (before and after it), an object entry twice with one
+				// member changed - lists that hold keys either way are filled entry by entry into a map
+				if arr, isArr := nodeAt(tree, p).([]interface{}); isArr && len(arr) > 0 {
+					var before, after, twice []interface{}
+					for _, e := range arr {
+						switch x := e.(type) {
+						case string:
+							obj := map[string]interface{}{"kind": "user_scope", "key": x, "role": "other-role", "template": map[string]interface{}{}}
+							before = append(before, obj, e)
+							after = append(after, e, obj)
+							twice = append(twice, e, map[string]interface{}{"kind": "user_scope", "key": x}, e)
+						case map[string]interface{}:
+							k, hasKey := x["key"].(string)
+							if !hasKey {
+								before, after, twice = append(before, e), append(after, e), append(twice, e)
+								continue
+							}
+							cp := deepCopy(x).(map[string]interface{})
+							cp["role"] = "other-role"
+							before = append(before, k, e)
+							after = append(after, e, k)
+							twice = append(twice, e, cp)
+						default:
+							before, after, twice = append(before, e), append(after, e), append(twice, e)
+						}
+					}
+					for _, l := range [][]interface{}{before, after, twice, {"", map[string]interface{}{"kind": "user_scope"}}} {
+						muts = append(muts, struct {
+							how  string
+							repl interface{}
+						}{"replace", l})
+					}
+				}
 				// string-valued nodes additionally take hostile strings (subjects with empty tokens, "$" references,
 				// wildcards and blanks in odd places, over-long text)
 				if orig, isStr := nodeAt(tree, p).(string); isStr {
